@@ -1,0 +1,20 @@
+//go:build verif
+
+package dnsforward
+
+// This file is only compiled with the "verif" build tag.  It adds an accessor
+// used by the external deterministic-simulation harness (engine E5 homeweb,
+// properties C11 and C12) and changes nothing in the shipped build.
+
+// VerifHomesimCloseAddrProc stops the goroutine of the address processor that
+// [Server.Prepare] starts.  A real process never stops it before it exits
+// ([Server.Close] leaves it running); a simulated node must, because its
+// synctest bubble cannot end while the goroutine lives.
+func (s *Server) VerifHomesimCloseAddrProc() {
+	s.serverLock.Lock()
+	defer s.serverLock.Unlock()
+
+	if s.addrProc != nil {
+		_ = s.addrProc.Close()
+	}
+}
